@@ -683,7 +683,7 @@ class Daemon(object):
                 ser.register_type_replacement(type(obj_or_class), _pyro_obj_to_auto_proxy)
         # register the object/class in the mapping
         self.objectsById[obj_or_class._pyroId] = obj_or_class if not weak else weakref.ref(obj_or_class)
-        if weak: weakref.finalize(obj_or_class,self.unregister,objectId)
+        if weak: weakref.finalize(obj_or_class,self._unregisterWeak,objectId,self.objectsById[objectId])
         return self.uriFor(objectId)
 
     def _registered(self, objectId):
@@ -692,6 +692,11 @@ class Daemon(object):
         if isinstance(obj, weakref.ref):
             obj = obj()
         return obj
+
+    def _unregisterWeak(self, objectId, ref):
+        """Finalizer of a weak registration: remove it, unless the id has been given to something else meanwhile."""
+        if self.objectsById.get(objectId) is ref:
+            del self.objectsById[objectId]
 
     def unregister(self, objectOrId):
         """
